@@ -4,6 +4,8 @@ import (
 	"bufio"
 	"encoding/json"
 	"fmt"
+	"github.com/EliCDavis/polyform/math/curves"
+	"image/color"
 	"os"
 
 	"github.com/EliCDavis/polyform/modeling"
@@ -149,14 +151,27 @@ func RunGenerator(c GenCase) modeling.Mesh {
 		pts := []extrude.ExtrusionPoint{}
 		for i, pt := range pathPoints(at(p, 2)) {
 			ep := extrude.ExtrusionPoint{Point: pt, Thickness: 0.5 + float64(i)/4}
-			if flag {
+			switch at(p, 3) {
+			case 1:
 				ep.UV = &extrude.ExtrusionPointUV{Point: vector2.New(0.5, float64(i)), Thickness: 1}
+			case 2: // neighbouring points share a texture coordinate
+				ep.UV = &extrude.ExtrusionPointUV{Point: vector2.New(0.5, float64(i/2)), Thickness: 1}
+			case 3: // only some points carry one
+				if i%2 == 0 {
+					ep.UV = &extrude.ExtrusionPointUV{Point: vector2.New(0.5, float64(i)), Thickness: 1}
+				}
 			}
 			pts = append(pts, ep)
 		}
 		return extrude.Polygon(at(p, 1), pts)
 	case 11:
-		return extrude.Circle{Resolution: at(p, 1), Radius: 0.5, Path: pathPoints(at(p, 2)), ClosePath: flag}.Extrude()
+		ci := extrude.Circle{Resolution: at(p, 1), Radius: 0.5, Path: pathPoints(at(p, 2)), ClosePath: at(p, 3)&1 == 1}
+		if at(p, 3)&2 == 2 { // one radius per path point
+			for i := range ci.Path {
+				ci.Radii = append(ci.Radii, 0.25+float64(i%3)/4)
+			}
+		}
+		return ci.Extrude()
 	case 12:
 		return extrude.Shape(shape2D(at(p, 1)), pathPoints(at(p, 2)))
 	case 13:
@@ -185,6 +200,45 @@ func RunGenerator(c GenCase) modeling.Mesh {
 			n = 0
 		}
 		return triangulation.BowyerWatson(append([]vector2.Float64{}, latticePts[:n]...))
+	case 18:
+		n := at(p, 1)
+		if n > len(latticePts) {
+			n = len(latticePts)
+		}
+		if n < 0 {
+			n = 0
+		}
+		// constraint outlines: one that cuts triangles, a small one, one that holds every point, two at once
+		outlines := [][]vector2.Float64{
+			{vector2.New(1.5, 1.5), vector2.New(5.5, 1.5), vector2.New(5.5, 5.5), vector2.New(1.5, 5.5)},
+			{vector2.New(2.5, 2.5), vector2.New(3.5, 2.5), vector2.New(3., 3.5)},
+			{vector2.New(-1., -1.), vector2.New(9., -1.), vector2.New(9., 9.), vector2.New(-1., 9.)},
+		}
+		var cs []triangulation.Constraint
+		switch at(p, 2) {
+		case 0, 1, 2:
+			cs = []triangulation.Constraint{triangulation.NewConstraint(outlines[at(p, 2)])}
+		case 3:
+			cs = []triangulation.Constraint{triangulation.NewConstraint(outlines[0]), triangulation.NewConstraint(outlines[1])}
+		}
+		return triangulation.ConstrainedBowyerWatson(append([]vector2.Float64{}, latticePts[:n]...), cs)
+	case 19:
+		sp := curves.CatmullRomSplineParameters{Points: pathPoints(at(p, 2)), Alpha: 0.5}.Spline()
+		cas := extrude.CircleAlongSpline{CircleResolution: at(p, 1), Radius: 0.5, ClosePath: at(p, 3)&1 == 1, Spline: &sp, SplineResolution: 2 + at(p, 2)}
+		if at(p, 3)&2 == 2 {
+			for i := 0; i < cas.SplineResolution; i++ {
+				cas.Radii = append(cas.Radii, 0.25+float64(i%3)/4)
+			}
+		}
+		return cas.Extrude()
+	case 20:
+		f := marching.Sphere(vector3.New(0.25, 0., 0.), r, 1)
+		if flag {
+			f = f.WithColor(color.RGBA{R: 255, A: 255})
+		}
+		return f.March(modeling.PositionAttribute, float64(at(p, 1)), float64(at(p, 2))/4)
+	case 21:
+		return primitives.UnitCube()
 	case 17:
 		canvas := marching.NewMarchingCanvas(float64(at(p, 1)))
 		off := float64(at(p, 2))
